@@ -230,8 +230,11 @@ def _state_W(res, rel, T, P=None, count=True):
     v, w, _ = _call(res, lambda: f(T, *pa))
     v0 = J.value("plain", v, None, None, 0, "plain" + lab)
     J.warning("plain", w, outside, "plain" + lab)
-    if v0 is not None and not outside and not (v0 == v0 and abs(v0) != float("inf") and v0 > 0):
-        J.fail("plain", "value", "%s plain%s = %r is not a positive finite number" % (rel, lab, v0), v0, "> 0")
+    if v0 is not None and not (v0 == v0 and abs(v0) != float("inf") and v0 > 0):
+        if outside:  # extrapolation beyond the validity range may leave the domain of the formula (log of a negative number)
+            res.outcomes["%s|plain|non-physical-value-outside-range" % rel] += 1
+        else:
+            J.fail("plain", "value", "%s plain%s = %r is not a positive finite number" % (rel, lab, v0), v0, "> 0")
         v0 = None
     v, w, _ = _call(res, lambda: f(T, *pa, warn=False))
     m = J.value("plain", v, None, v0, 0.0, "plain warn=False" + lab)
